@@ -14,7 +14,7 @@ pub fn run(cfg: &RunCfg) -> Report {
     run_cases(cfg, 1, cases, Duration::from_secs(3600), |c, rng, rep| {
         let classic = c % 2 == 0;
         let sc = ConfigSnapshot { mode: if classic { SchedulingMode::Classic } else { SchedulingMode::Enhanced }, quality_enabled: rng.chance(1, 2), stall_deselect: rng.chance(1, 2), ..ConfigSnapshot::default() };
-        let opts = StreamOpts { n_links: 1 + rng.usize_below(3), cfg: sc, ticks: 4000, probing: rng.chance(1, 2), faults: Faults::Paths, retransmit_pct: 5, control_pct: 3, critical_windows: false, big_jumps: false, initial_windows: None, loss_permille: 30, stall_min_in_flight_small: false, echo_fuzz: false, rate_pct: 100 };
+        let opts = StreamOpts { n_links: 1 + rng.usize_below(3), cfg: sc, ticks: 4000, probing: rng.chance(1, 2), faults: Faults::Paths, retransmit_pct: 5, control_pct: 3, critical_windows: false, big_jumps: false, initial_windows: None, loss_permille: 30, stall_min_in_flight_small: false, echo_fuzz: false, rate_pct: 100, short_sends: false };
         let mut m = ClassicHkMon { classic };
         let mut mons: [&mut dyn Monitor; 1] = [&mut m];
         run_stream(opts, rng, &mut mons, rep);
